@@ -25,6 +25,11 @@ def uses_only_common(p_tt):
             h = tok[1:]
             if h in ("24", "30", "3e", "3f", "40", "41", "13d61f00", "1c3a8f00"):
                 return False
+            # gen_prog.composed_programs computes operators at run time from these literals
+            # (<opcode>ffffffff / 7f7f7f7f<opcode>): the differing opcodes are excluded there too
+            for d in ("24", "30", "3e", "3f", "40", "41"):
+                if h in (d + "ffffffff", "7f7f7f7f" + d):
+                    return False
     return True
 
 
